@@ -262,6 +262,53 @@ func (u *Universe) RefBuildList(reqs map[string]project.RequirementConfig) (map[
 	return sel, ok
 }
 
+// BranchCommit returns the commit a ref names ("main", "br<i>"), or -1.
+func (u *Universe) BranchCommit(ref string) int {
+	if ref == "main" {
+		return len(u.Tags) - 1
+	}
+	var i int
+	if _, err := fmt.Sscanf(ref, "br%d", &i); err == nil && strings.HasPrefix(ref, "br") && i >= 0 && i < len(u.Branches) {
+		return u.Branches[i] % len(u.Tags)
+	}
+	return -1
+}
+
+// RefVersion is the reference resolution of a ref query for path p: the tag on the named
+// commit itself if there is one (highest first), else a pseudo-version based on the closest
+// tagged ancestor commit.
+func (u *Universe) RefVersion(p, ref string) (string, bool) {
+	c := u.BranchCommit(ref)
+	if c < 0 {
+		return "", false
+	}
+	_, major := project.SplitPathVersion(p)
+	// the project's directory must exist at that commit, else nothing can be fetched
+	dir := strings.TrimPrefix(project.TrimPathVersion(p), RepoAddr+"/")
+	exists := false
+	for i := c; i >= 0; i-- {
+		if ProjDir(u.Tags[i].Proj) == dir {
+			exists = true
+		}
+	}
+	if !exists {
+		return "", false
+	}
+	for i := c; i >= 0; i-- {
+		if u.MV(i).Path != p {
+			continue
+		}
+		// several tags never share a commit in this model: commit i carries exactly tag i
+		if i == c {
+			return u.Tags[i].Version, true
+		}
+		rev := &revision{idx: c}
+		return module.PseudoVersion(major, u.Tags[i].Version, rev.When(), rev.PseudoID()), true
+	}
+	rev := &revision{idx: c}
+	return module.PseudoVersion(major, major, rev.When(), rev.PseudoID()), true
+}
+
 // TaggedVersions returns the tagged versions of a path in ascending semver order.
 func (u *Universe) TaggedVersions(p string) []string {
 	var out []string
